@@ -16,7 +16,7 @@ pub static PROP: Prop = Prop {
     rule: "cases = (input from the macro-envelope strata [full / header only / trailer only / bare header / header+1 / trailer inside / empty body / truncated header] or the class-run generator, mode subset, macro flag, FNC1 flag, list) plus every length 0..=16 around the 7/9 byte thresholds enumerated; oracle = first codeword in {236,237} iff (macros and not FNC1 and header and trailer and len >= 9), body and message via reference decoder, decode_data = input, FNC1 start gives 232 first; non-trivial = input starts with a macro header or ends with RS EOT; distinct by (input, configuration)",
     assumptions: &["reference decoder R1 for the body / header view", "refusals and panics of the encoder are C11's and only counted here"],
     extra: super::no_extra,
-    fuzz_runs: 50000,
+    fuzz_runs: 200000,
 };
 
 pub fn check(c: &EncCase) -> Verdict {
